@@ -238,7 +238,9 @@ def step(w: World, op, failures):
             key_of = next((kk for kk, g in w.granted.items() if g[0] == shmid), None)
             if key_of is not None and ok is True and key_of not in w.written:
                 w.evicted_unwritten.add(key_of)
-            if key_of is not None and ok is not True and w.readers.get(key_of):
+            # "a reader is still registered" is the MANAGER's view (Dataset.ongoing_reads): a reader whose close was rejected because the dataset was already
+            # being paged out has given up on the client side (w.readers) but stays registered there - the same history, close before the failure instead of after
+            if key_of is not None and ok is not True and (w.readers.get(key_of) or (key_of in w.m.datasets and w.m.datasets[key_of].ongoing_reads)):
                 w.failed_out_with_reader.add(key_of)
             if shmid in w.stale_out:
                 w.stale_out.discard(shmid)
